@@ -401,6 +401,13 @@ def cases(tier, what="forward"):
                 if (N, Ci, Co) in ((2, 2, 2), (1, 1, 1)):
                     add("conv1d", shp, {"kernel_size": k, "stride": s, "padding": p, "dilation": d}, form="layer")
     if fw:
+        # in-channel mismatches (incl. one side with a single channel, which a broadcasting contraction would swallow) -> raise
+        for (cx, cw) in ((2, 1), (1, 2), (3, 2), (3, 1), (1, 3)):
+            add("conv1d", [(2, cx, 4), (2, cw, 2)], {"stride": 1, "padding": 0, "dilation": 1})
+            add("conv1d", [(2, cx, 4), (2, cw, 2), (2,)], {"stride": 1, "padding": 1, "dilation": 1})
+            add("conv2d", [(2, cx, 3, 3), (2, cw, 2, 2)], {"stride": 1, "padding": 0, "dilation": 1})
+            add("conv2d", [(1, cx, 3, 4), (3, cw, 2, 1), (3,)], {"stride": [1, 2], "padding": [1, 0], "dilation": 1})
+        add("linear", [(2, 1), (2, 3)]); add("linear", [(2, 3), (2, 1), (2,)])              # in_features mismatch with a size-1 side
         add("conv1d", [(1, 2, 4), (1, 1, 2)], {"stride": 1, "padding": 0, "dilation": 1})          # channel mismatch -> raise
         add("conv1d", [(1, 1, 4), (1, 1, 2)])                                                      # all defaults
         add("conv1d", [(1, 1, 4), (1, 1, 2)], {"kernel_size": 2}, form="layer")
